@@ -302,7 +302,8 @@ def _store_array(
     else:
         # treat a region as an offset within the target store
         shape = target.shape
-        chunks = target.chunks
+        # for a sharded array a task must write whole shards, since a shard is the unit of storage
+        chunks = getattr(target, "shards", None) or target.chunks
         if len(region) != len(shape) or not all(isinstance(sl, slice) for sl in region):
             raise ValueError(
                 f"Region {region} must be a tuple of {len(shape)} slices, one for each dimension of the target"
